@@ -220,8 +220,10 @@ func newWorld() *world {
 		w.users = append(w.users, u)
 		acc := authtypes.NewBaseAccount(u.addr.Bytes(), k.PubKey(), 0, 0)
 		genAccs = append(genAccs, acc)
-		bals = append(bals, banktypes.Balance{Address: acc.GetAddress().String(),
-			Coins: sdk.NewCoins(sdk.NewCoin(sdk.DefaultBondDenom, sdk.NewInt(1000000)))})
+		if i == 0 { // (the helper computes the genesis supply correctly for one balance entry only)
+			bals = append(bals, banktypes.Balance{Address: acc.GetAddress().String(),
+				Coins: sdk.NewCoins(sdk.NewCoin(sdk.DefaultBondDenom, sdk.NewInt(4000000)))})
+		}
 		w.addRef(fmt.Sprintf("u%d", i), u.addr)
 	}
 	w.app = xibctesting.SetupWithGenesisValSet(&testing.T{}, valSet, genAccs, bals...)
@@ -233,6 +235,12 @@ func newWorld() *world {
 		NextValidatorsHash: valSet.Hash(),
 		ProposerAddress:    valSet.Proposer.Address,
 		Time:               time.Unix(1700000000, 0).UTC(),
+	}
+	for i := 1; i < nUsers; i++ {
+		if err := w.app.BankKeeper.SendCoins(w.ctx(), w.users[0].addr.Bytes(), w.users[i].addr.Bytes(),
+			sdk.NewCoins(sdk.NewCoin(sdk.DefaultBondDenom, sdk.NewInt(1000000)))); err != nil {
+			panic(err)
+		}
 	}
 	w.addRef("module", moduleAddr)
 	w.addRef("feecol", common.BytesToAddress(authtypes.NewModuleAddress(authtypes.FeeCollectorName)))
@@ -463,6 +471,41 @@ func (w *world) apply(f func(ctx sdk.Context) error) (int, string) {
 	return 0, ""
 }
 
+// symAmount resolves "bal", "bal+1", "bal-1", "half" against the sender's current balance.
+func symAmount(s string, bal *big.Int) string {
+	if bal == nil {
+		bal = big.NewInt(0)
+	}
+	switch s {
+	case "bal":
+		return bal.String()
+	case "bal+1":
+		return new(big.Int).Add(bal, big.NewInt(1)).String()
+	case "bal-1":
+		return new(big.Int).Sub(bal, big.NewInt(1)).String()
+	case "half":
+		return new(big.Int).Div(bal, big.NewInt(2)).String()
+	}
+	return s
+}
+
+func (w *world) coinBal(a common.Address, denom string) *big.Int {
+	var out *big.Int
+	hlib.Catch(func() { out = w.app.BankKeeper.GetBalance(w.ctx(), a.Bytes(), denom).Amount.BigInt() })
+	return out
+}
+
+func (w *world) tokBal(t *token, a common.Address) *big.Int {
+	if t == nil {
+		return nil
+	}
+	b, ok := new(big.Int).SetString(w.view(w.ctx(), t.addr, "balanceOf", a), 10)
+	if !ok {
+		return nil
+	}
+	return b
+}
+
 func amountOf(s string) sdk.Int {
 	neg := strings.HasPrefix(s, "-")
 	b, ok := new(big.Int).SetString(strings.TrimPrefix(s, "-"), 10)
@@ -546,10 +589,13 @@ func (w *world) run(st Step) StepRes {
 		r.ToHex, r.Denom, r.Amount = hex40(to), st.Denom, st.Amount
 		r.Class, r.Err = w.apply(func(ctx sdk.Context) error {
 			cs := sdk.Coins{sdk.Coin{Denom: st.Denom, Amount: amountOf(st.Amount)}}
-			if err := a.BankKeeper.MintCoins(ctx, authtypes.Minter, cs); err != nil {
+			if err := a.BankKeeper.MintCoins(ctx, aggtypes.ModuleName, cs); err != nil {
 				return err
 			}
-			return a.BankKeeper.SendCoins(ctx, authtypes.NewModuleAddress(authtypes.Minter), to.Bytes(), cs)
+			if to == moduleAddr { // coins that sit in the module account without any token minted for them
+				return nil
+			}
+			return a.BankKeeper.SendCoins(ctx, moduleAddr.Bytes(), to.Bytes(), cs)
 		})
 	case "register_coin":
 		r.Denom = st.Denom
@@ -723,18 +769,21 @@ func (w *world) run(st Step) StepRes {
 	case "bank_send": // environment: a user sends coins (bank keeper SendCoins, as MsgSend does after its gates)
 		from, _ := w.resolveAddr(st.From)
 		to, _ := w.resolveAddr(st.To)
-		r.FromHex, r.ToHex, r.Denom, r.Amount = hex40(from), hex40(to), st.Denom, st.Amount
+		denom := w.denomString(st.Denom)
+		amt := symAmount(st.Amount, w.coinBal(from, denom))
+		r.FromHex, r.ToHex, r.Denom, r.Amount = hex40(from), hex40(to), denom, amt
 		r.Class, r.Err = w.apply(func(ctx sdk.Context) error {
 			if a.BankKeeper.BlockedAddr(to.Bytes()) {
 				return errors.New("blocked")
 			}
-			return a.BankKeeper.SendCoins(ctx, from.Bytes(), to.Bytes(), sdk.Coins{sdk.Coin{Denom: st.Denom, Amount: amountOf(st.Amount)}})
+			return a.BankKeeper.SendCoins(ctx, from.Bytes(), to.Bytes(), sdk.Coins{sdk.Coin{Denom: denom, Amount: amountOf(amt)}})
 		})
 	case "tok_transfer", "tok_burn": // environment: a user calls transfer / burn on a token contract
 		t := w.tok(st.Tok)
 		from, _ := w.resolveAddr(st.From)
 		to, _ := w.resolveAddr(st.To)
-		r.FromHex, r.ToHex, r.Amount = hex40(from), hex40(to), st.Amount
+		amt := symAmount(st.Amount, w.tokBal(t, from))
+		r.FromHex, r.ToHex, r.Amount = hex40(from), hex40(to), amt
 		r.Class, r.Err = w.apply(func(ctx sdk.Context) error {
 			if t == nil {
 				return errors.New("no such token")
@@ -742,9 +791,9 @@ func (w *world) run(st Step) StepRes {
 			var data []byte
 			var err error
 			if st.Op == "tok_transfer" {
-				data, err = erc20ABI.Pack("transfer", to, amountOf(st.Amount).BigInt())
+				data, err = erc20ABI.Pack("transfer", to, amountOf(amt).BigInt())
 			} else {
-				data, err = erc20ABI.Pack("burn", amountOf(st.Amount).BigInt())
+				data, err = erc20ABI.Pack("burn", amountOf(amt).BigInt())
 			}
 			if err != nil {
 				return err
@@ -755,15 +804,16 @@ func (w *world) run(st Step) StepRes {
 		senderStr := w.bech32String(st.Sender)
 		receiverStr := w.hexString(st.Receiver)
 		denom := w.denomString(st.Denom)
-		msg := &aggtypes.MsgConvertCoin{Coin: sdk.Coin{Denom: denom, Amount: amountOf(st.Amount)}, Receiver: receiverStr, Sender: senderStr}
 		sa, err := sdk.AccAddressFromBech32(senderStr)
+		amt := symAmount(st.Amount, w.coinBal(common.BytesToAddress(sa), denom))
+		msg := &aggtypes.MsgConvertCoin{Coin: sdk.Coin{Denom: denom, Amount: amountOf(amt)}, Receiver: receiverStr, Sender: senderStr}
 		r.SenderOK = err == nil && len(sa) == 20
 		if r.SenderOK {
 			r.SenderHex = hex.EncodeToString(sa)
 		}
 		r.ReceiverRaw, r.ReceiverOK = receiverStr, common.IsHexAddress(receiverStr)
 		r.ReceiverHex = hex40(common.HexToAddress(receiverStr))
-		r.Denom, r.Amount = denom, st.Amount
+		r.Denom, r.Amount = denom, amt
 		u := w.userByAddr(common.BytesToAddress(sa))
 		if st.Via == "tx" && r.SenderOK && u != nil {
 			r.Class, r.Err = w.deliverTx(u, msg)
@@ -776,7 +826,8 @@ func (w *world) run(st Step) StepRes {
 		receiverStr := w.bech32String(st.Receiver)
 		contractStr := w.hexString(st.Contract)
 		denom := w.denomString(st.Denom)
-		msg := &aggtypes.MsgConvertERC20{ContractAddress: contractStr, Amount: amountOf(st.Amount), Receiver: receiverStr, Sender: senderStr, Denom: denom}
+		amt := symAmount(st.Amount, w.tokBal(w.tok(st.Tok), common.HexToAddress(senderStr)))
+		msg := &aggtypes.MsgConvertERC20{ContractAddress: contractStr, Amount: amountOf(amt), Receiver: receiverStr, Sender: senderStr, Denom: denom}
 		ra, err := sdk.AccAddressFromBech32(receiverStr)
 		r.ReceiverOK = err == nil && len(ra) == 20
 		if r.ReceiverOK {
@@ -785,7 +836,7 @@ func (w *world) run(st Step) StepRes {
 		r.SenderRaw, r.SenderOK = senderStr, common.IsHexAddress(senderStr)
 		r.SenderHex = hex40(common.HexToAddress(senderStr))
 		r.ContractRaw = contractStr
-		r.Denom, r.Amount = denom, st.Amount
+		r.Denom, r.Amount = denom, amt
 		u := w.userByAddr(common.HexToAddress(senderStr))
 		if st.Via == "tx" && r.SenderOK && u != nil {
 			r.Class, r.Err = w.deliverTx(u, msg)
